@@ -168,7 +168,7 @@ fn k_aq_6_finish() {
     std::mem::forget(c);
 }
 
-//@off(cbmc-does-not-finish) id=K-STACK-1 kind=B bound=stack-depth-1 props=C14,C01 timeout=600 fn=QueryStack::push_new_query,QueryStack::pop,ActiveQuery::reset_for,ActiveQuery::clear
+//@ob id=K-STACK-1 kind=B bound=stack-depth-1 props=C14,C01 timeout=900 fn=QueryStack::push_new_query,QueryStack::pop,ActiveQuery::reset_for,ActiveQuery::clear
 //@ pre: empty stack; push a frame, record an untracked read (any revision) and a LOW read, pop it, push again with another key
 //@ post: length returns to 0 after pop; the re-used frame starts clean: (NEVER_CHANGE, start, tracked, no edges) for the new key
 #[cfg_attr(kani, kani::proof)]
